@@ -84,8 +84,9 @@ def refs_of_graph(g, Expr):
     out = {}
     for e in I.walk(g, Expr):
         r = e.props.get("ref")
-        if not isinstance(r, str) and e.kind == "constant" and not isinstance(e.props.get("reference_name"), str):
-            # auto-generated constant names are computed on demand and never stored
+        if not isinstance(r, str) and e.kind not in ("symbol", "apply") and not isinstance(e.props.get("reference_name"), str):
+            # auto-generated names (of constants and of anonymous operations) are computed on demand and
+            # never stored or registered
             try:
                 r = e.ref
             except Exception:
@@ -125,6 +126,7 @@ class Oracle:
         d[k] = d.get(k, 0) + n
 
     def violation(self, cls, key, rec, **detail):
+        key = key + "|" + rec["key"].split(":")[1]  # the function: a finding about one program never hides another's
         detail.update(request=rec["key"], position=rec["pos"], prior_on_context=rec["prior"][-4:], env=rec["env"], rep=rec["rep"])
         if not any(v["cls"] == cls and v["key"] == key for v in self.violations):
             self.violations.append({"cls": cls, "key": key, "detail": detail})
